@@ -63,6 +63,8 @@ def go_case(c, cid, rnd, schedule=None, rand=None, sizes=None, props=None, notra
             kind, ctx = o[0], o[1]
             nch = int(o[2]) if len(o) > 2 else 1
             op = {"kind": kind, "ctx": ctx, "size": sizes[rnd.randrange(len(sizes))], "parts": rnd.randrange(1, 4)}
+            if kind == "MX":
+                op["size"] = 0  # nothing of it ever reaches the transport
             if kind in ("RF", "MR", "MT"):
                 # one low-level write per chunk; ReadFrom reads at most 1024 bytes at a time
                 cs = [x for x in sizes if 0 < x <= 1024] or [1, 7, 100]
